@@ -135,12 +135,16 @@ def main(argv=None):
         v = out['verdict']
         # fidelity run: the executor's prediction for a concrete witness of the normal path must be reproduced by the real contracts
         wit = out.get('witnesses') or {}
-        wlabel = 'ok' if 'ok' in wit else (sorted(wit)[0] if wit else None)
-        if wlabel is not None and v in ('unsat', 'sat'):
-            fr = replayer.fidelity(pid, ob, wit[wlabel])
-            out['fidelity'] = dict(fr, witness=wlabel)
-            if fr['status'] == 'differs':
-                inconclusive.append((ob.name, 'the executor and the real contracts disagree on a concrete run of the normal path (translator validation)', fr.get('detail')))
+        if wit and v in ('unsat', 'sat'):
+            runs = []
+            for wlabel in sorted(wit)[:4]:
+                fr = replayer.fidelity(pid, ob, wit[wlabel])
+                runs.append(dict(fr, witness=wlabel))
+                if fr['status'] == 'differs':
+                    inconclusive.append((ob.name, 'the executor and the real contracts disagree on a concrete run of the normal path (translator validation, witness %s)' % wlabel,
+                                         fr.get('detail')))
+            st_all = 'differs' if any(r['status'] == 'differs' for r in runs) else ('agrees' if any(r['status'] == 'agrees' for r in runs) else 'skipped')
+            out['fidelity'] = {'status': st_all, 'runs': runs, 'agrees': sum(1 for r in runs if r['status'] == 'agrees'), 'detail': runs[0].get('detail')}
         if v == 'unsat':
             continue
         if v in ('inconclusive', 'vacuous'):
